@@ -404,6 +404,14 @@ def replay(cfg, events):
                         return [[abst(a), abst(o)] for a in g.subjects(path_obj(e["p"]), o)]
                     if via == "objects":
                         return [[abst(s), abst(b)] for b in g.objects(s, path_obj(e["p"]))]
+                    if via == "aggregate":
+                        # the same data spread over two member graphs of a ReadOnlyGraphAggregate: a path is a relation over the union
+                        from rdflib.graph import ReadOnlyGraphAggregate
+                        parts = [Graph(), Graph()]
+                        for i_, t_ in enumerate(sorted(g)):
+                            parts[i_ % 2].add(t_)
+                        agg = ReadOnlyGraphAggregate(parts)
+                        return [[abst(a), abst(b)] for a, _, b in agg.triples((s, path_obj(e["p"]), o))]
                     # growth G02: Graph.transitive_objects / transitive_subjects are p* with one end bound
                     if via == "transitive_objects":
                         return [[abst(s), abst(b)] for b in g.transitive_objects(s, conc(e["p"]["arg"]["iri"]))]
